@@ -351,6 +351,20 @@ fn long_chain(t: &mut Tape, gates: &Gates) -> String {
     }
 }
 
+/// a variable with many selectors (`s.a.a.a...`, `s[1][1]...`, mixed): 20 .. 400 of them are a
+/// few hundred bytes of input with no nesting at all - work that doubles per selector does not end
+fn long_selectors(t: &mut Tape) -> String {
+    let n = *t.pick(&[20usize, 26, 30, 40, 64, 120, 400]);
+    let sel = *t.pick(&[".a", "[1]", ".a[1]", ".a.b"]);
+    let chain = format!("s{}", sel.repeat(n));
+    match t.below(4) {
+        0 => format!("PROGRAM p\nVAR\ns : INT;\nEND_VAR\n{} := 1;\nEND_PROGRAM\n", chain),
+        1 => format!("PROGRAM p\nVAR\ns : INT;\nx : INT;\nEND_VAR\nx := {} + {};\nEND_PROGRAM\n", chain, chain),
+        2 => format!("FUNCTION_BLOCK f\nVAR\ns : INT;\ng : f2;\nEND_VAR\ng(i := {}, o => {});\nEND_FUNCTION_BLOCK\n", chain, chain),
+        _ => format!("FUNCTION f : INT\nVAR\ns : INT;\nEND_VAR\nIF {} = 1 THEN\nf := {};\nEND_IF;\nEND_FUNCTION\n", chain, chain),
+    }
+}
+
 fn family_extreme(t: &mut Tape) -> String {
     let b = big(t);
     let b2 = big(t);
@@ -520,6 +534,7 @@ fn family_graph(t: &mut Tape) -> String {
 pub fn gen_input(t: &mut Tape, gates: &Gates) -> (String, &'static str) {
     let (s, fam) = match t.below(11) {
         10 if t.ratio(1, 3) => (long_chain(t, gates), "long-operator-chain"),
+        10 if t.ratio(1, 4) && gates.want("LONG_SELECTOR_CHAIN") => (long_selectors(t), "long-selector-chain"),
         10 if t.ratio(1, 8) => (family_large(t, gates), "large-input"),
         10 if t.ratio(1, 3) => (family_graph(t), "declaration-graph"),
         10 => (family_text_decl(t), "text-declarations"),
